@@ -325,8 +325,9 @@ PROPS = {
                  "writer's complete buffer with mode 0644 (reader_sees_whole_file); a failing update removes its temp file and leaves the previous file "
                  "(failed_update_*) — Lean theorems over the file-system machine; the call sequence of update() is extracted from the source on every run "
                  "(Expect.c20_update_call_sequence); the real psa-dhcpc -syshook binary is run in a chroot under strace with an error injected at, and "
-                 "a SIGKILL delivered on entry to, each file-system call, and as 4-8 concurrent writers (some killed) with a polling reader.",
-        "props": ["C20"],
+                 "a SIGKILL delivered on entry to, each file-system call, and as 4-8 concurrent writers (some killed) with a polling reader."
+                 " resolvconf.update as translated from the source on every run (named result and deferred clean-up closure inlined at every return), interpreted on the abstract file system, makes exactly the calls of the model writer — order, arguments (0644, /etc/resolv.conf), Remove on every error path after the temp file exists and only then — for every placement of failures and short writes (C20Code).",
+        "props": ["C20", "C20Code"],
         "streams": [{"test": "TestFsAtomic", "names": ["fsatomic"], "timeout": 900}],
         "rule": "steps {create, write, close, chmod, rename} x {error injected, SIGKILL on entry} x {previous file present, absent} x name-server lists; "
                 "concurrent rounds of 4-8 real writers with 25% killed at a random instant and a reader polling the target; non-trivial = every case",
